@@ -26,18 +26,23 @@ import (
 // blobDesc describes the content of a blob by a few integers (the trace stays small):
 // nlines lines "f<fam> l<i> xxxx\n" of payload width `width`; the lines i with (i*7+variant)%period == 0
 // (period > 0) are replaced by "f<fam> l<i> EDIT<variant>\n"; `bin` puts a NUL byte in front; `tail`
-// appends that many 'z' without a newline.
+// appends that many 'z' without a newline; `fill` selects the payload letter ('x' for 0, else 'a'+fill-1),
+// so that blobs of equal size can be made dissimilar.
 type blobDesc struct {
-	fam, nlines, width, variant, period, bin, tail int
+	fam, nlines, width, variant, period, bin, tail, fill int
 }
 
 func (b blobDesc) sx() Sx {
-	return L(I(b.fam), I(b.nlines), I(b.width), I(b.variant), I(b.period), I(b.bin), I(b.tail))
+	return L(I(b.fam), I(b.nlines), I(b.width), I(b.variant), I(b.period), I(b.bin), I(b.tail), I(b.fill))
 }
 
 func parseDesc(s Sx) blobDesc {
 	v := s.List
-	return blobDesc{v[0].Int(), v[1].Int(), v[2].Int(), v[3].Int(), v[4].Int(), v[5].Int(), v[6].Int()}
+	d := blobDesc{v[0].Int(), v[1].Int(), v[2].Int(), v[3].Int(), v[4].Int(), v[5].Int(), v[6].Int(), 0}
+	if len(v) > 7 {
+		d.fill = v[7].Int()
+	}
+	return d
 }
 
 func (b blobDesc) data() []byte {
@@ -45,11 +50,15 @@ func (b blobDesc) data() []byte {
 	if b.bin != 0 {
 		sb.WriteByte(0)
 	}
+	fill := "x"
+	if b.fill > 0 {
+		fill = string(rune('a' + (b.fill-1)%26))
+	}
 	for i := 0; i < b.nlines; i++ {
 		if b.period > 0 && (i*7+b.variant)%b.period == 0 {
 			fmt.Fprintf(&sb, "f%d l%d EDIT%d\n", b.fam, i, b.variant)
 		} else {
-			fmt.Fprintf(&sb, "f%d l%d %s\n", b.fam, i, strings.Repeat("x", b.width))
+			fmt.Fprintf(&sb, "f%d l%d %s\n", b.fam, i, strings.Repeat(fill, b.width))
 		}
 	}
 	sb.WriteString(strings.Repeat("z", b.tail))
@@ -526,8 +535,28 @@ func thresh(c *Config) *tcase {
 	tc := &tcase{kind: "thresh", thr: pickThr(c), timeout: hour, procs: 1 + 15*r.Intn(2), spin: r.Intn(2)}
 	base := 32 + r.Intn(200)
 	nb := 2 + r.Intn(8)
+	// exact boundary of sizesAreClose: sizes S and S*thr/100 give abs*10000/S == (100-thr)*100
+	boundary := r.Intn(2) == 0
+	eff := tc.thr
+	if eff < 0 || eff > 100 {
+		eff = 80
+	}
+	if boundary {
+		base = 100 * (1 + r.Intn(3))
+	}
 	for i := 0; i < nb; i++ {
 		sz := base
+		if boundary && i > 0 {
+			sz = base*eff/100 + r.Intn(3) - 1
+			if r.Intn(4) == 0 {
+				sz = base
+			}
+			if sz < 8 {
+				sz = 8
+			}
+			tc.blobs = append(tc.blobs, blob{randHash(c), blobDesc{fam: 0, nlines: 1, width: sz - 7}})
+			continue
+		}
 		switch r.Intn(4) {
 		case 0:
 			sz = base * (100 - r.Intn(101)) / 100
@@ -573,6 +602,53 @@ func weird(c *Config) *tcase {
 	return tc
 }
 
+// the candidate cap: one deleted blob, 55..75 added blobs of about its size of which exactly one is similar,
+// placed around rank RenameAnalysisMaxCandidates of the Levenshtein order of the names
+func capCase(c *Config) *tcase {
+	r := c.Rng
+	tc := &tcase{kind: "cap", thr: 80, timeout: hour, procs: 1 + 15*r.Intn(2), spin: r.Intn(2)}
+	width := 60 + r.Intn(40)
+	tc.blobs = append(tc.blobs, blob{randHash(c), blobDesc{fam: 1, nlines: 2, width: width}})          // deleted
+	tc.blobs = append(tc.blobs, blob{randHash(c), blobDesc{fam: 1, nlines: 2, width: width, tail: 1}}) // similar
+	tc.blobs = append(tc.blobs, blob{randHash(c), blobDesc{fam: 1, nlines: 2, width: width, fill: 5}}) // dissimilar
+	tc.blobs = append(tc.blobs, blob{randHash(c), blobDesc{fam: 1, nlines: 2, width: width, fill: 9, tail: 2}})
+	n := 55 + r.Intn(21)
+	names := r.Perm(200)[:n+1]
+	dname := names[n]
+	lev := api.LevenshteinContext{}
+	type nd struct{ name, dist int }
+	nds := make([]nd, n)
+	for i := 0; i < n; i++ {
+		nds[i] = nd{names[i], lev.Distance(filepath.Base(nameOf(dname)), filepath.Base(nameOf(names[i])))}
+	}
+	sort.SliceStable(nds, func(i, j int) bool { return nds[i].dist < nds[j].dist })
+	rank := api.RenameAnalysisMaxCandidates - 3 + r.Intn(7)
+	if rank >= n {
+		rank = n - 1
+	}
+	similar := nds[rank].name
+	tc.changes = append(tc.changes, change{kind: "d", name: dname, from: 0})
+	for i := 0; i < n; i++ {
+		b := 2 + r.Intn(2)
+		if names[i] == similar {
+			b = 1
+		}
+		tc.changes = append(tc.changes, change{kind: "a", name: names[i], to: b})
+	}
+	if r.Intn(2) == 0 {
+		// the same the other way round: matchB's cap
+		for i := range tc.changes {
+			ch := &tc.changes[i]
+			if ch.kind == "a" {
+				ch.kind, ch.from = "d", ch.to
+			} else {
+				ch.kind, ch.to = "a", ch.from
+			}
+		}
+	}
+	return tc
+}
+
 // more than RenameAnalysisSetSizeLimit leftovers: the candidate cap drops to 1
 func big(c *Config, n int) *tcase {
 	r := c.Rng
@@ -585,7 +661,9 @@ func big(c *Config, n int) *tcase {
 	sz := 40
 	for k := 0; k < classes; k++ {
 		for v := 0; v < 3; v++ {
-			tc.blobs = append(tc.blobs, blob{randHash(c), blobDesc{fam: k, nlines: 1, width: sz - 7 + v, variant: v}})
+			// additions take variants 0 ('x') and 1 ('b'), deletions variant 2 ('x'): a deleted blob is similar to
+			// the variant-0 additions of its class only, so the second candidate often decides
+			tc.blobs = append(tc.blobs, blob{randHash(c), blobDesc{fam: k, nlines: 1, width: sz - 7 + v, variant: v, fill: (v % 2) * 2}})
 		}
 		sz = sz * 3 / 2
 	}
@@ -647,8 +725,10 @@ func main() {
 	for i := c.Count(300, 6000); i > 0; i-- {
 		emit(c, weird(c))
 	}
+	for i := c.Count(150, 3000); i > 0; i-- {
+		emit(c, capCase(c))
+	}
 	for i := c.Count(1, 12); i > 0; i-- {
 		emit(c, big(c, 2300))
 	}
-	_ = sort.Ints
 }
